@@ -2,16 +2,79 @@
 
 package main
 
+import (
+	"errors"
+	"strings"
+
+	ch "github.com/WuKongIM/WuKongIM/pkg/channel"
+	"github.com/WuKongIM/WuKongIM/pkg/channel/machine"
+)
+
 // C04 — a deposed or fenced authority cannot acknowledge appends.  Generator
 // biased towards authority orderings (higher / equal / lower / fence-only
 // bumps), fenced installs, installs that fail after the owner was fenced, and
-// commits with stale or foreign Expected authorities.
+// commits with stale or foreign Expected authorities.  One extra case drives the
+// real ChannelState.ValidateMeta against its regenerated translation (op `vmeta`).
 func init() {
-	Register(&Prop{Gen: replGen(replGenParams{
+	base := replGen(replGenParams{
 		name: "C04", pInstall: 40, pCommit: 48, pCrash: 6, pRestart: 6,
 		pRetryExact: 8, pRetryConfl: 4, pStaleAuth: 18, pEqualAuth: 18, pFenced: 14,
 		pScenario: 10, pSmallCap: 10, maxOps: 26, pWrongExpect: 30,
 		pBareQuorum: 15, pLostAcks: 8, pMinorityResp: 22,
 		pRepair: 3, pMdb: 6, pSameTerm: 3,
-	}), NewRunner: func() Runner { return newReplRunner() }})
+	})
+	Register(&Prop{Gen: func(g *Gen) {
+		base(g)
+		g.Case()
+		for i := 0; i < 300; i++ {
+			// vmeta se sle sl km im me mle ml minisr isrlen   (small values: equalities are common)
+			g.Count("vmeta")
+			g.Op("vmeta", "%d %d %d %d %d %d %d %d %d %d", g.R.Range(1, 3), g.R.Range(1, 3), g.R.Range(1, 2),
+				g.R.Pick(9, 1), g.R.Pick(9, 1), g.R.Range(0, 4), g.R.Range(0, 4), g.R.Range(1, 2), g.R.Range(0, 4), g.R.Range(0, 3))
+		}
+	}, NewRunner: func() Runner { return &c04Runner{inner: newReplRunner()} }})
+}
+
+type c04Runner struct{ inner *replRunner }
+
+func (r *c04Runner) Close() { r.inner.Close() }
+
+func (r *c04Runner) Step(op string) string {
+	f := strings.Fields(op)
+	if len(f) == 0 || f[0] != "vmeta" {
+		return r.inner.Step(op)
+	}
+	if len(f) != 11 {
+		return "bad-op"
+	}
+	v := make([]uint64, 10)
+	for i := range v {
+		x, ok := atoiU(f[i+1])
+		if !ok {
+			return "bad-op"
+		}
+		v[i] = x
+	}
+	if v[3] > 1 || v[4] > 1 {
+		return "bad-op"
+	}
+	st := &machine.ChannelState{Key: "k", ID: ch.ChannelID{ID: "c", Type: 1}, Epoch: v[0], LeaderEpoch: v[1], Leader: ch.NodeID(v[2])}
+	meta := ch.Meta{Key: "k", ID: st.ID, Epoch: v[5], LeaderEpoch: v[6], Leader: ch.NodeID(v[7]), MinISR: int(v[8]), ISR: make([]ch.NodeID, v[9])}
+	if v[3] == 1 {
+		meta.Key = "other"
+	}
+	if v[4] == 1 {
+		meta.ID = ch.ChannelID{ID: "d", Type: 1}
+	}
+	err := st.ValidateMeta(meta)
+	switch {
+	case err == nil:
+		return "ok"
+	case errors.Is(err, ch.ErrStaleMeta):
+		return "stale"
+	case errors.Is(err, ch.ErrInvalidConfig):
+		return "invalid"
+	default:
+		return "other"
+	}
 }
